@@ -201,6 +201,8 @@ type c07Session struct {
 	items    []c07Item
 	nconn    int
 	failKey  []byte
+	noSelect int // >= 0: SELECT of this database is refused ("-ERR DB index is out of range"), -1 / 0-value+flag: none
+	hasNoSel bool
 	dseed    int64
 	slowWord string
 	slowDur  time.Duration
@@ -315,6 +317,12 @@ func c07Serve(c net.Conn) {
 			continue
 		case "select":
 			it.db, _ = strconv.Atoi(string(arg(1)))
+			if s.hasNoSel && it.db == s.noSelect {
+				// the target has fewer databases than the source: the connection stays where it was
+				reply = "-ERR DB index is out of range\r\n"
+				c.Write([]byte(reply))
+				continue
+			}
 		case "restore":
 			it.key = arg(1)
 			if s.failKey != nil && bytes.Equal(it.key, s.failKey) {
@@ -395,9 +403,16 @@ func c07List(s string) (kind string, items []string) {
 }
 
 func runC07(f []string) string {
-	if len(f) >= 3 && f[0] == "mfile" {
+	if len(f) >= 3 && (f[0] == "mfile" || f[0] == "selfail") {
 		if os.Getenv("VERIF_C07_CHILD") == "" {
-			return c07Parent(strings.Join(f, " "))
+			r := c07Parent(strings.Join(f, " "))
+			if f[0] == "selfail" && r == "abort" {
+				r = "fail" // log.Panic* on a worker goroutine: the process ended as a failure
+			}
+			return r
+		}
+		if f[0] == "selfail" {
+			return c07RunSelfail(f[1], c07KV(f[2:]))
 		}
 		return c07RunMfile(c07KV(f[1:]))
 	}
@@ -522,6 +537,7 @@ func genC07(g *gen) {
 		return
 	}
 	genC07Mfile(g)
+	genC07Selfail(g)
 	n := g.pick(420, 6000)
 	dbPool := []int{0, 1, 2, 3, 5, 9, 15, 16, 300}
 	for ci := 0; ci < n; ci++ {
@@ -875,4 +891,82 @@ func c07RunMfile(kv map[string]string) (res string) {
 	}
 	sort.Strings(wrote)
 	return "res=ok W=" + strings.Join(wrote, ",")
+}
+
+// ---------------------------------------------------------------- a target that refuses one SELECT
+//
+// case line:  selfail <sync|restore> P=<n> nosel=<db> dseed=<n> E=<entries>
+// The target answers SELECT <nosel> with an error (a source database the target does not have). The run must be reported
+// as failed (the code exits through log.Panic* or returns an error: both `fail`) whenever a key lives in that database, and
+// no key may be written into another database than its own. Runs in a child process (see mfile).
+
+func c07RunSelfail(mode string, kv map[string]string) (res string) {
+	defer func() {
+		if e := recover(); e != nil {
+			if _, ok := e.(log.VerifExit); ok {
+				res = "fail"
+				return
+			}
+			panic(e)
+		}
+	}()
+	es := c07ParseEntries(kv["E"])
+	conf.Options = conf.Configuration{}
+	conf.Options.Parallel = atoi(kv["P"])
+	conf.Options.TargetDB = -1
+	conf.Options.TargetType = "standalone"
+	conf.Options.KeyExists = "none"
+	conf.Options.BigKeyThreshold = 1 << 20
+	conf.Options.TargetVersion = "4.0.9"
+	c07Start()
+	sess := &c07Session{dseed: int64(atoi(kv["dseed"])), noSelect: atoi(kv["nosel"]), hasNoSel: true}
+	c07Srv.mu.Lock()
+	c07Srv.cur = sess
+	c07Srv.mu.Unlock()
+	data := c07RDB(es, 8)
+	reader := bufio.NewReaderSize(bytes.NewReader(data), 4096)
+	target := []string{c07Srv.addr}
+	var err error
+	if mode == "sync" {
+		err = dbSync.VerifC07SyncRDBFile(reader, target, int64(len(data)))
+	} else {
+		err, _ = run.VerifC07RestoreRDBFile(reader, target, int64(len(data)))
+	}
+	if err != nil {
+		return "fail"
+	}
+	db := map[string]int{}
+	var wrote []string
+	for _, it := range strings.Split(sess.snapshot(), ",") {
+		p := strings.Split(it, ":")
+		if len(p) != 5 {
+			continue
+		}
+		switch p[1] {
+		case "select":
+			db[p[0]] = atoi(p[2])
+		case "restore":
+			if p[4] == "1" {
+				wrote = append(wrote, fmt.Sprintf("%d:%s", db[p[0]], p[2]))
+			}
+		}
+	}
+	sort.Strings(wrote)
+	return "res=ok W=" + strings.Join(wrote, ",")
+}
+
+func genC07Selfail(g *gen) {
+	n := g.pick(24, 300)
+	for i := 0; i < n; i++ {
+		dbs := [][]int{{0, 1, 20}, {0, 20}, {3, 20, 3}, {20}, {0, 1, 2}, {1, 16, 20, 0}}[g.r.Intn(6)]
+		ne := 2 + g.r.Intn(10)
+		var es []c07Entry
+		for k := 0; k < ne; k++ {
+			es = append(es, c07Entry{db: dbs[g.r.Intn(len(dbs))], key: []byte(fmt.Sprintf("s%dk%d", i, k)), kind: 0, flags: "000"})
+		}
+		// the loader delivers keys database by database: keep the order of first appearance stable
+		sort.SliceStable(es, func(a, b int) bool { return false })
+		g.emit("selfail %s P=%d nosel=%d dseed=%d E=%s", []string{"sync", "restore"}[g.r.Intn(2)], 1+g.r.Intn(5),
+			[]int{20, 16, 1}[g.r.Intn(3)], g.r.Intn(1<<30), c07Join(es))
+	}
 }
